@@ -15,8 +15,22 @@ NAMES = ["alpha", "beta", "gamma", "delta", "omega", "stream-one", "x" * 40]
 def gen_cmds(rng):
     cmds = [{"k": "create_user", "name": "root", "user": 0}]
     for _ in range(rng.randrange(2, 7)):
-        k = rng.choice(["create_stream", "create_stream", "update_stream", "delete_stream", "purge_stream", "create_user", "delete_user"])
-        cmds.append({"k": k, "name": rng.choice(NAMES), "id": rng.randrange(1, 9), "user": rng.choice([1, 1, 2])})
+        k = rng.choice(["create_stream", "create_stream", "update_stream", "delete_stream", "purge_stream", "create_user", "delete_user",
+                        "create_topic", "update_topic", "delete_topic", "purge_topic", "create_partitions", "delete_partitions", "create_group", "delete_group",
+                        "update_user", "change_password", "update_permissions", "delete_pat", "create_user_perms"])
+        c = {"k": k, "name": rng.choice(NAMES), "id": rng.randrange(1, 9), "user": rng.choice([1, 1, 2])}
+        if k in ("create_topic", "update_topic"):
+            c.update({"tid": rng.choice([None, 3]), "expiry": rng.choice([None, "default", 5000000]), "max_size": rng.choice([None, "default", 1000000]), "repl": rng.choice([None, 1, 3])})
+        elif k == "create_group":
+            c["tid"] = rng.choice([None, 4])
+        elif k == "update_user":
+            c.update({"new_name": rng.choice([None, "renamed"]), "inactive": rng.choice([None, True, False])})
+        elif k in ("update_permissions", "create_user_perms"):
+            # nested permission records: several streams with several topics each
+            c["perms"] = rng.choice([None, {"g": rng.randrange(1024)},
+                                     {"g": rng.randrange(1024), "streams": [[sid, rng.randrange(64), [[tid, rng.randrange(16)] for tid in range(1, rng.randrange(1, 4))] or None]
+                                                                            for sid in range(1, rng.randrange(2, 5))]}])
+        cmds.append(c)
         if rng.random() < 0.3:
             cmds[-1]["fail"] = True          # this command's append fails (fault injected by the harness)
     return cmds
@@ -104,6 +118,38 @@ def run(out, tier, seed, gate):
             chunk = kept[c:c + 400]
             loads.append({"id": "%s-%d" % (j["id"], c), "files": [hexs(b) for (_, _, b) in chunk]})
             meta.append((j, base, bounds, chunk))
+    # every kind of journalled command, with its optional fields absent and present and nested permission records: what is read back
+    # from the journal decodes and encodes to the journalled bytes
+    all_kinds = [{"k": "create_user", "name": "root", "user": 0}]
+    deep = {"g": 682, "streams": [[1, 21, [[1, 5], [2, 10]]], [2, 42, [[1, 3], [3, 12]]], [7, 63, None], [9, 1, [[4, 15], [5, 1], [6, 2]]]]}
+    for k in ["create_stream", "update_stream", "delete_stream", "purge_stream", "create_user", "delete_user", "create_topic", "update_topic", "delete_topic", "purge_topic",
+              "create_partitions", "delete_partitions", "create_group", "delete_group", "update_user", "change_password", "update_permissions", "delete_pat", "create_user_perms"]:
+        for variant in (0, 1):
+            c = {"k": k, "name": rng.choice(NAMES), "id": rng.randrange(1, 9), "user": 1}
+            if k in ("create_topic", "update_topic"):
+                c.update({"tid": [None, 3][variant], "expiry": [None, 5000000][variant], "max_size": ["default", 1000000][variant], "repl": [None, 3][variant]})
+            elif k == "create_group":
+                c["tid"] = [None, 4][variant]
+            elif k == "update_user":
+                c.update({"new_name": [None, "renamed"][variant], "inactive": [True, None][variant]})
+            elif k in ("update_permissions", "create_user_perms"):
+                c["perms"] = [{"g": 5}, deep][variant]
+            all_kinds.append(c)
+    mk = harness.run_traces("journal-make", [{"id": "C11-kinds", "cmds": all_kinds}], shards=1)["C11-kinds"]
+    if "crash" not in mk and not all(mk.get("value_rt", [False])):
+        i = mk.get("value_rt", [False]).index(False)
+        out.violation("kinds-value", {"kind": "spec-monitor", "mode": "journal-make", "journal": {"id": "C11-kinds", "cmds": all_kinds[:i + 1]}, "command": all_kinds[i],
+                                      "what": "a command encoded for the journal does not decode to the same command"})
+    elif "crash" in mk or not all(mk.get("applied", [False])):
+        out.violation("kinds-make", {"kind": "spec-monitor", "mode": "journal-make", "journal": {"id": "C11-kinds", "cmds": all_kinds}, "result": str(mk)[:800],
+                                     "what": "a command of some kind cannot be journalled"})
+    else:
+        ld = harness.run_traces("journal-load", [{"id": "kinds", "files": [mk["hex"]]}], shards=1)["kinds"]["outs"][0]
+        if "ok" not in ld or len(ld["ok"]) != len(all_kinds) or not all(ld.get("reenc", [False])):
+            bad_at = ld.get("reenc", []).index(False) if "reenc" in ld and False in ld["reenc"] else None
+            out.violation("kinds-roundtrip", {"kind": "spec-monitor", "mode": "journal-load", "journal": {"id": "C11-kinds", "cmds": all_kinds}, "file_hex": mk["hex"], "load": str(ld)[:600],
+                                              "entry": bad_at, "command": all_kinds[bad_at] if bad_at is not None else None,
+                                              "what": "a journalled command does not decode and encode back to the journalled bytes (or the journal of all command kinds does not load)"})
     impl = harness.run_traces("journal-load", loads, shards=6)
     # model: every variant through the Coq loader
     terms, where = [], []
@@ -146,6 +192,11 @@ def run(out, tier, seed, gate):
                 continue
             if "ok" in o:
                 got = o["ok"]
+                if not all(o.get("reenc", [])):
+                    if reported < 3:
+                        out.violation("reenc-%s-%d" % (ld["id"], vi), dict(replay, kind="spec-monitor", what="a journal entry's command does not decode and encode back to the bytes that were journalled (entry %d)" % o["reenc"].index(False)))
+                        reported += 1
+                    continue
                 if orig is not None and got != orig[:len(got)]:
                     accepted_non_prefix += 1
                     if reported < 3:
